@@ -289,6 +289,73 @@ def gen_panic_sites():
     out += ["]", "", "end Nun.Gen", ""]
     return "\n".join(out)
 
+# steps the Lean model takes atomically, and the critical section of the source that makes them so: inside the named region the lock is taken
+# first, the read and the act follow, and the block that holds the guard is not closed in between
+ATOMIC_SITES = [
+    # (name, file, region start regex, region end regex or None (= function body), lock, read, act)
+    ("sync-reads-and-queues-under-the-cluster-lock", "replication_ops.rs", r'Some\("replicate-since-to"\)\s*=>\s*\{', r'Some\("election-win"\)',
+     r"dbs\.cluster_state\.lock\(\)", r"get_pendding_opps_since\(", r"replicate_if_some\("),
+    ("fan-out-registers-and-queues-under-the-cluster-lock", "replication_ops.rs", r"fn replicate_message_to_secoundary\b[^{]*\{", None,
+     r"cluster_state\.lock\(\)", r"register_pending_opp\(", r"replicate_if_some\("),
+    ("forward-to-primary-under-the-cluster-lock", "replication_ops.rs", r"pub fn send_message_to_primary\b[^{]*\{", None,
+     r"cluster_state\.lock\(\)", r"members\.lock\(\)", r"replicate_if_some\("),
+    ("set_value-checks-and-writes-under-one-write-lock", "bo.rs", r"pub fn set_value\b[^{]*\{", None,
+     r"self\.map\.write\(\)", r"db\.get\(|self\.get_value\(", r"db\.insert\("),
+    ("inc_value-reads-and-writes-under-one-write-lock", "bo.rs", r"pub fn inc_value\b[^{]*\{", None,
+     r"self\.map\.write\(\)", r"db\.get\(|self\.get_value\(", r"db\.insert\("),
+    ("remove_value-looks-up-and-removes-under-one-write-lock", "bo.rs", r"pub fn remove_value\b[^{]*\{", None,
+     r"self\.map\.write\(\)", r"db\.get\(|self\.get_value\(", r"db\.(remove|insert)\("),
+]
+
+def atomic_site(rel, start_re, end_re, lock_re, read_re, act_re):
+    text = src(rel)
+    cut = text.find("#[cfg(test)]\nmod tests")
+    if cut > 0: text = text[:cut]
+    b = blank(text)
+    if len(b) != len(text): raise ExtractError("blank() changed the length of the text")
+    ms = list(re.finditer(start_re, text))      # region markers may be string literals: found in the raw text, same offsets
+    if len(ms) != 1: raise ExtractError(f"atomic site in {rel}: region /{start_re}/ found {len(ms)} times")
+    st = ms[0].end()
+    if end_re is not None:
+        me = re.search(end_re, text[st:])
+        if not me: raise ExtractError(f"atomic site in {rel}: region end /{end_re}/ not found")
+        en = st + me.start()
+    else:
+        depth = 1; i = st
+        while i < len(b) and depth > 0:
+            if b[i] == "{": depth += 1
+            elif b[i] == "}": depth -= 1
+            i += 1
+        en = i
+    region = b[st:en]
+    ml = re.search(lock_re, region)
+    if not ml: return False
+    mr = re.search(read_re, region[ml.end():]); ma = None
+    if mr: ma = re.search(act_re, region[ml.end() + mr.end():])
+    # a read or an act BEFORE the lock means part of the step runs outside the critical section
+    if re.search(read_re, region[:ml.start()]) or re.search(act_re, region[:ml.start()]): return False
+    if not mr or not ma: return False
+    # the block holding the guard stays open from the lock to the (first) act
+    depth = 0
+    for ch in region[ml.end(): ml.end() + mr.end() + ma.end()]:
+        if ch == "{": depth += 1
+        elif ch == "}":
+            depth -= 1
+            if depth < 0: return False
+    if re.search(r"\bdrop\(", region[ml.end(): ml.end() + mr.end() + ma.end()]): return False
+    return True
+
+def gen_atomic():
+    out = ["namespace Nun.Gen", "",
+           "/-- steps the model takes atomically: does the source hold ONE lock from the read to the act? (name, holds) -/",
+           "def atomicSites : List (List Nat × Bool) := ["]
+    for ix, (name, rel, st, en, lk, rd, ac) in enumerate(ATOMIC_SITES):
+        ok = atomic_site(rel, st, en, lk, rd, ac)
+        out.append(f"  -- {name} ({rel})")
+        out.append(f"  ({bytes_lit(name)}, {'true' if ok else 'false'})" + ("," if ix + 1 < len(ATOMIC_SITES) else ""))
+    out += ["]", "", "end Nun.Gen", ""]
+    return "\n".join(out)
+
 def write(name, text):
     os.makedirs(OUT, exist_ok=True)
     p = os.path.join(OUT, name)
@@ -298,7 +365,7 @@ def write(name, text):
 
 def main():
     errors = []
-    for name, fn in [("Lits.lean", gen_lits), ("Guards.lean", gen_guards), ("PanicSites.lean", gen_panic_sites)]:
+    for name, fn in [("Lits.lean", gen_lits), ("Guards.lean", gen_guards), ("PanicSites.lean", gen_panic_sites), ("Atomic.lean", gen_atomic)]:
         try:
             write(name, "-- GENERATED by extract/extract.py from /repo/src — do not edit\n" + fn())
         except ExtractError as e:
